@@ -95,6 +95,10 @@ func (c20) build(src *gen.Source) *Case {
 		case 6, 7, 8:
 			tmpl := src.Pick([]string{"${N}", "${N:-W}", "${N:=W}", "${N=W}", "${N:?}", "${N?}", "${#N}", "${N:+W}", "${N+W}", "${N%P}", "${N%%P}", "${N#P}", "${N##P}"})
 			tmpl = strings.ReplaceAll(tmpl, "P", src.Pick([]string{"*", "p*", "?", "1", "a*", "*3", "z"}))
+			if src.Chance(1, 6) {
+				// expansions that consult HOME / IFS or nest an arithmetic assignment in the operator word
+				tmpl = src.Pick([]string{"~", "~/x", "a:~:b", "$N", "x$N", "${N:=$((_y1=7))}", "${N:-$((X=3))}", "${N:+$((X=4))}"})
+			}
 			op = Op{Op: "expand", Name: anyName(), Value: strings.ReplaceAll(tmpl, "W", src.Pick(c20Words)), Mode: []uint{0, uint(interp.Quote), 0, uint(interp.Literal), uint(interp.Pattern), uint(interp.Assign), uint(interp.Arith), 0}[src.Intn(8)]}
 		case 9, 10:
 			tmpl := src.Pick([]string{"$((N=K))", "$((N+=K))", "$((N++))", "$((--N))", "$((N-=K))", "$((N*=K))", "$((1/0))", "$((08))", "$((N+1/0))", "$((N N))", "$((N))", "$((N+K))", "$((N+=M))", "$((N*=M))", "$((N=M))", "$((N-=M))"})
@@ -478,7 +482,28 @@ func (p c20) Run(t *testing.T, c *Case, s Sched, keepLog bool) *Obs {
 				if i := strings.Index(op.Value, "}"); i > 0 && strings.HasPrefix(op.Value, "${") {
 					inner = op.Value[2+len(op.Name) : i]
 				}
+				nestedAssign := func(target, value string, used bool) {
+					// w is expanded only when it is used; then its arithmetic assignment happens
+					if used && err == nil {
+						m.vars[target] = value
+						live.Assigns++
+					}
+				}
 				switch {
+				case strings.Contains(inner, "$((_y1=7))"):
+					need := !set || null
+					if need && !isSpecial(op.Name) && !isPositional(op.Name) {
+						nestedAssign("_y1", "7", true)
+						if err == nil {
+							m.vars[op.Name] = "7"
+						}
+					} else if need && err == nil {
+						add("assigned-special", fmt.Sprintf("%s: assigning a special/positional parameter did not fail", desc))
+					}
+				case strings.Contains(inner, "$((X=3))"):
+					nestedAssign("X", "3", !set || null)
+				case strings.Contains(inner, "$((X=4))"):
+					nestedAssign("X", "4", set && !null)
 				case arith:
 					switch aplan {
 					case "apply":
